@@ -28,12 +28,12 @@ CLAIMS = {
         note="Not a proof: the printer's encoders (json.dumps, str.replace) are outside the VC generator's subset. Known finding: member descriptions "
              "dropped by print_ast (pinned by tests)."),
     "C18": dict(
-        category="other", engine="rtc",
-        technique="run-time contracts (visitor trace, edit locality, chain order) on enumerated parser-produced documents",
-        text="Bounded stand-in: on every document of the derivation corpus the enter/leave trace is balanced, every non-Name node is entered "
+        category="other", engine="tracecheck+rtc",
+        technique="trace contracts over every syntactic path of the real functions (ghost event words, callees by effect contract; unbounded in the inputs) + run-time contracts (visitor trace, edit locality, chain order) on enumerated parser-produced documents",
+        text="All paths of the enter/leave wrapper (_visit_method): enter once first; SkipNode suppresses children and leave and returns the original node; None deletes without traversal; leave exactly once iff the node survives. Bounded stand-in: on every document of the derivation corpus the enter/leave trace is balanced, every non-Name node is entered "
              "exactly once inside its parent's events and in source order, an identity visitor changes nothing; delete / replace / skip at "
              "every entered node position change exactly that position; chained visitors enter in order and leave in reverse.",
-        note="Not a proof (higher-order callbacks). Known findings, all pinned by literal event lists in tests/test_lang/test_visitor.py: "
+        note="Child-slot coverage of the _visit_* methods and ChainedVisitor remain bounded. Not a proof (higher-order callbacks). Known findings, all pinned by literal event lists in tests/test_lang/test_visitor.py: "
              "descriptions, type conditions, the Variable of a definition and wrapped types are never visited; three slots out of source "
              "order; ChainedVisitor loses edits."),
     "C19": dict(
@@ -78,30 +78,30 @@ CLAIMS = {
              "independent of earlier requests on the same schema object.",
         note=BND + "Trusted: vf/ref_exec.py + vf/ref_coerce.py (specification transcriptions). The executor is outside the VC generator's subset."),
     "C08": dict(
-        category="other", engine="rtc",
-        technique="run-time functional contract under every enumerated completion order of parked resolver tasks (stateless DFS over schedules), 4 configurations",
-        text="Bounded: BlockingExecutor, Executor on Blocking / AsyncIO / ThreadPool runtimes each satisfy the C04 contract for every completion order of "
+        category="other", engine="tracecheck+rtc",
+        technique="map_value effect contract checked on BlockingRuntime.map_value (all paths) + run-time functional contract under every enumerated completion order of parked resolver tasks (stateless DFS over schedules), 4 configurations",
+        text="BlockingRuntime.map_value satisfies the map_value effect contract on every path (then once, else handler only for a matching exception). Bounded: BlockingExecutor, Executor on Blocking / AsyncIO / ThreadPool runtimes each satisfy the C04 contract for every completion order of "
              "the in-flight tasks (thread pool replaced by a parking executor incl. tasks that finish at submit time; asyncio resolvers gated by harness "
              "futures); unexpected exceptions surface unchanged; nothing stays pending once all tasks ran.",
         note=BND + "Callbacks are atomic (one thread): pre-emptive thread interleavings inside done-callbacks and fair termination are outside this family's reach."),
     "C09": dict(
-        category="other", engine="rtc",
-        technique="run-time serial-trace contract on the resolver event log for every enumerated completion order",
-        text="Bounded: for mutations with 1..4 top-level fields (also reached through fragments), nested deferred sub-fields and failures at each position, "
+        category="other", engine="tracecheck+rtc",
+        technique="trace contracts over every syntactic path of the real functions (ghost event words, callees by effect contract; unbounded in the inputs) + run-time serial-trace contract on the resolver event log for every enumerated completion order",
+        text="All paths: execute() runs a mutation with execute_fields_serially exactly once and refuses other operation kinds before any field; Executor.execute_fields_serially takes fields from the front, resolves one per step, stores the value and continues only inside the `then` continuation of the previous field's completed value, always continuing. Bounded: for mutations with 1..4 top-level fields (also reached through fragments), nested deferred sub-fields and failures at each position, "
              "under all 4 configurations and every completion order: a later top-level resolver is invoked only after every resolver below the earlier "
              "field finished; result == reference in document order.",
-        note=BND + "Atomic callbacks; see C08."),
+        note=BND + "The trace contracts assume the map_value effect contract for the asynchronous runtimes (bounded by C08). Atomic callbacks; see C08."),
     "C10": dict(
-        category="other", engine="rtc",
-        technique="run-time response-format contracts on enumerated request outcomes (every failure stage, every truncation point)",
-        text="Bounded: strict JSON, error entries (message, 1-based line/column inside the document, path of keys/indices), extensions pass-through, data "
+        category="other", engine="tracecheck+rtc",
+        technique="trace contracts over every syntactic path of the real functions (ghost event words, callees by effect contract; unbounded in the inputs) + run-time response-format contracts on enumerated request outcomes (every failure stage, every truncation point)",
+        text="All paths: process_graphql_query builds a result without data before execution (syntax / validation failure) and with data = None for request errors raised by execute(); GraphQLResult.response adds errors / data / extensions exactly when present, in that order, errors through to_dict(). Bounded: strict JSON, error entries (message, 1-based line/column inside the document, path of keys/indices), extensions pass-through, data "
              "omitted for syntax / validation failures, data null + errors for request errors, one error per failed position, for executions with "
              "failures everywhere, every prefix of request texts, invalid documents and variable errors.",
         note=BND + "Known findings: misspelt 'columne' key and IndexError when rendering the len+1 position (both pinned by tests)."),
     "C14": dict(
-        category="other", engine="rtc",
-        technique="run-time data-structure invariants (closed registry, source frame, removed unreachable, untargeted preserved) as postconditions of schema operations over operation sequences",
-        text="Bounded: clone, 11 visibility predicates, camel-casing and 9 extension documents applied to a source schema carrying resolvers, default / "
+        category="other", engine="ctorcheck+rtc",
+        technique="attribute-preservation obligations on every rebuild site (constructor-argument analysis of the real source, all inputs) + run-time data-structure invariants (closed registry, source frame, removed unreachable, untargeted preserved) as postconditions of schema operations over operation sequences",
+        text="All inputs: at each of the 19 sites that rebuild a schema element (ASTTypeBuilder._extend_*, SchemaVisitor.on_*, CamelCaseSchemaTransform.on_*) every __init__ parameter of the rebuilt class is passed and derived from the source element's attribute (110 obligations). Bounded: clone, 11 visibility predicates, camel-casing and 9 extension documents applied to a source schema carrying resolvers, default / "
              "subscription resolvers, type resolvers and python names - each alone, in sequences of 2-3 on the same source, and chained. After every "
              "operation: every reference in the result is the object registered under its name (fields, arguments, interfaces, members, roots), the "
              "source's deep snapshot is unchanged and the source is still closed, hidden elements are unreachable through the registry and "
@@ -117,16 +117,16 @@ CLAIMS = {
              "the schema; every defaultValue is GraphQL text that coerces back to the declared default.",
         note=BND + "Known finding: string defaults nested in lists / input objects are not escaped (partially repaired by a fix: commit; the rest is pinned by tests)."),
     "C16": dict(
-        category="other", engine="rtc",
-        technique="run-time hook / middleware trace contracts over request outcomes x runtimes x completion orders",
-        text="Bounded: stage hooks paired, properly nested, at most once, ended even on errors; field hooks exactly once per resolved field around the "
+        category="other", engine="tracecheck+rtc",
+        technique="trace contracts over every syntactic path of the real functions (ghost event words, callees by effect contract; unbounded in the inputs) + run-time hook / middleware trace contracts over request outcomes x runtimes x completion orders",
+        text="All paths: stage hooks of process_graphql_query / execute / subscribe fire at most once, properly nested, ended whenever a result is returned, execution stage only for accepted requests; field hooks of both resolve_field implementations fire exactly once around the resolver on every returning path; MultiInstrumentation runs start hooks in order and end hooks in reverse (56 obligations). Bounded: stage hooks paired, properly nested, at most once, ended even on errors; field hooks exactly once per resolved field around the "
              "resolver call; middlewares exactly once in the documented nesting; stacked instrumentations start in order and end in reverse; all 4 "
              "configurations and completion orders.",
-        note=BND + "Ghost-trace contracts over callbacks are evaluated at run time only."),
+        note=BND + "Assumed: map_value effect contract for asynchronous runtimes; hooks do not raise; complete_value raises no resolver error. Middleware nesting is bounded only. Ghost-trace contracts over callbacks are evaluated at run time only."),
     "C17": dict(
-        category="other", engine="rtc",
-        technique="run-time per-event contract against the reference executor over enumerated event sequences",
-        text="Bounded: all event sequences of length 0..3 over {ok, root resolver error, nested error / null in non-null}, sync and async subscription "
+        category="other", engine="tracecheck+rtc",
+        technique="trace contracts over every syntactic path of the real functions (ghost event words, callees by effect contract; unbounded in the inputs) + run-time per-event contract against the reference executor over enumerated event sequences",
+        text="All paths: subscribe / create_source_event_stream raise their refusals before the source stream is created or the subscription resolver invoked; execute_subscription_event clears the shared error list before executing each event and builds one result from that event's data. Bounded: all event sequences of length 0..3 over {ok, root resolver error, nested error / null in non-null}, sync and async subscription "
              "resolvers, delays: one result per event in order, k-th result == selection executed on the k-th event with only its errors (also after an "
              "event that failed unexpectedly); seven refusal cases are raised before the source stream is advanced.",
         note=BND + "Concurrent pulls by a consumer that does not await are not covered."),
